@@ -104,6 +104,7 @@ class LogView:
         self.acked_writes = 0
         self.unlinks = []
         self.dropped_at = None
+        self.unlocked_at = None
         self.walk()
 
     def walk(self):
@@ -165,10 +166,16 @@ class LogView:
                 elif k == "snap":
                     files = dict(p_recover.parse_disk("disk " + e.split("snap disk", 1)[1]))
                     self.snaps.append((i, files, dict(self.synced), self.acked_writes, self.nwrites))
+                elif k == "flock" and t[2] == "unlock":
+                    self.unlocked_at = i
                 elif k == "dropped":
                     self.dropped_at = i
                 elif k == "opened" and i > 0:
                     self.dropped_at = None
+                    self.unlocked_at = None
+                if t[0] == "w" and self.unlocked_at is not None and k in ("write", "sync", "unlink"):
+                    self.problems.append(("C14", "the directory lock was released while the store's worker was still changing the directory: " + e, i))
+                    self.unlocked_at = None
                 if t[0] == "w" and self.dropped_at is not None and k in ("write", "sync", "unlink", "cb"):
                     self.problems.append(("C14", "the dropped store's worker acted after drop returned: " + e, i))
 
